@@ -1,5 +1,6 @@
 import Gengo.Model.Loader
 import Gengo.Lemmas.WalkInv
+import Gengo.Lemmas.WalkDesc
 import Gengo.Generated.Facts
 /-! # C01 – the parsed type universe is structurally faithful to the Go type checker -/
 namespace Gengo.C01
@@ -113,5 +114,113 @@ theorem scan_declared_types_present (bt : List Builtin) (F : Facts) (v2 : Bool) 
     obtain ⟨a', b', c', d'⟩ := addImports_same u2 p.path (p.imports.mergeSort Str.le)
     obtain ⟨h3, g3⟩ := inv_of_same a' b' c' d' (addObjs_inv F v2 (fuel + 1) _ _ _ h1 ha).1
     exact pr.mono g3
+
+/-! ### every filled object is what its Go node says (full model, Lemmas/WalkDesc.lean) -/
+open Gengo.Loader Gengo.WalkDesc
+
+/-- **universe_faithful_v2**: in a universe built by the v2 loader for a program without generic declarations, every
+object that `walkType` filled from a node of the type checker's graph has that node's kind, and – attribute by
+attribute, in declaration order – references to the objects registered under the names of the node's children:
+element, key, array length, struct members with name, embedded flag and verbatim tag, parameters, results,
+variadic flag, receiver, and the underlying type of a defined type (`Desc`) -/
+theorem universe_faithful_v2 (w : World) (hng : NoGenerics w.facts) (hwf : WellFormed w.facts w.v2) (req : List Str) (st : LState)
+    (h : newUniverseV2 w req = some st) (o : Nat) (ob : Obj) (g : Nat) (hob : st.u.objs[o]? = some ob) (hs : ob.src = some g) :
+    Desc w.facts w.v2 st.u ob g :=
+  described (newUniverseV2_full w hng hwf req st h) o ob g hob hs
+
+/-- **universe_faithful_v1**: the same for the v1 `Builder` -/
+theorem universe_faithful_v1 (w : World) (hng : NoGenerics w.facts) (hwf : WellFormed w.facts w.v2) (req : List Str) (st : LState)
+    (h : findTypesV1 w req = some st) (o : Nat) (ob : Obj) (g : Nat) (hob : st.u.objs[o]? = some ob) (hs : ob.src = some g) :
+    Desc w.facts w.v2 st.u ob g :=
+  described (findTypesV1_full w hng hwf req st h) o ob g hob hs
+
+/-- incremental loads keep it -/
+theorem incremental_keeps_faithful (w : World) (hng : NoGenerics w.facts) (hwf : WellFormed w.facts w.v2) (st st' : LState)
+    (hinv : Full w.bt w.facts w.v2 st.u) :
+    (∀ more, loadToV2 w st more = some st' → Full w.bt w.facts w.v2 st'.u) ∧
+    (∀ path, addDirToV1 w st path = some st' → Full w.bt w.facts w.v2 st'.u) :=
+  ⟨fun more h => loadToV2_full w hng hwf st st' more hinv h, fun path h => addDirToV1_full w hng hwf st st' path hinv h⟩
+
+/-- **struct_fields_faithful**: an object filled from a struct node is a Struct whose members are the node's fields,
+one for one and in order: same name, same embedded flag, same tag text, and the member's type is the object
+registered for the field's type -/
+theorem struct_fields_faithful {bt : List Builtin} {F : Facts} {v2 : Bool} {u : U} (h : Full bt F v2 u) (o : Nat) (ob : Obj) (g : Nat)
+    (fs : List GField) (hob : u.objs[o]? = some ob) (hs : ob.src = some g) (hn : F.node g = .struct fs) :
+    ob.kind = .struct ∧ All2 (MemberMatch F v2 u) ob.members fs := by
+  have := described h o ob g hob hs
+  unfold Desc at this
+  simpa [hn] using this
+
+/-- **signature_faithful**: an object filled from a signature node is a Func with the node's parameters and results in
+order (names and types), its variadic flag and its receiver -/
+theorem signature_faithful {bt : List Builtin} {F : Facts} {v2 : Bool} {u : U} (h : Full bt F v2 u) (o : Nat) (ob : Obj) (g : Nat)
+    (ps rs : List (Str × Nat)) (va : Bool) (recv : Option Nat) (hob : u.objs[o]? = some ob) (hs : ob.src = some g)
+    (hn : F.node g = .sig ps rs va recv) :
+    ob.kind = .func ∧ ob.variadic = va ∧ All2 (ParamMatch F v2 u) ob.params ps ∧ All2 (ParamMatch F v2 u) ob.results rs := by
+  have := described h o ob g hob hs
+  unfold Desc at this
+  simp only [hn] at this
+  exact ⟨this.1, this.2.2.1, this.2.2.2.1, this.2.2.2.2.1⟩
+
+/-- **array_and_map_faithful**: length, element and key -/
+theorem array_faithful {bt : List Builtin} {F : Facts} {v2 : Bool} {u : U} (h : Full bt F v2 u) (o : Nat) (ob : Obj) (g : Nat)
+    (len e : Nat) (hob : u.objs[o]? = some ob) (hs : ob.src = some g) (hn : F.node g = .array len e) :
+    ob.kind = .array ∧ ob.len = len ∧ ElemIs F v2 u ob.elem e := by
+  have := described h o ob g hob hs
+  unfold Desc at this
+  simpa [hn] using this
+
+theorem map_faithful {bt : List Builtin} {F : Facts} {v2 : Bool} {u : U} (h : Full bt F v2 u) (o : Nat) (ob : Obj) (g : Nat)
+    (k e : Nat) (hob : u.objs[o]? = some ob) (hs : ob.src = some g) (hn : F.node g = .map k e) :
+    ob.kind = .map ∧ ElemIs F v2 u ob.elem e ∧ ElemIs F v2 u ob.key k := by
+  have := described h o ob g hob hs
+  unfold Desc at this
+  simpa [hn] using this
+
+/-! non-vacuity: the empty universe is `Full`; `walkType` keeps `Full` (this is `walk_desc` + `walk_inv`) -/
+example (bt : List Builtin) (F : Facts) (v2 : Bool) : Full bt F v2 {} := full_empty bt F v2
+
+/-- `type T struct { Next *T }` in package p -/
+def demoFacts : Facts where
+  node
+    | 0 => .named 1 [] [] 1
+    | 1 => .struct [⟨['N', 'e', 'x', 't'], false, [], 2⟩]
+    | 2 => .pointer 0
+    | _ => .basic ['i', 'n', 't']
+  str
+    | 0 => ['p', '.', 'T']
+    | 1 => ['s', 't', 'r', 'u', 'c', 't', '{', 'N', 'e', 'x', 't', ' ', '*', 'p', '.', 'T', '}']
+    | 2 => ['*', 'p', '.', 'T']
+    | _ => ['i', 'n', 't']
+
+theorem demo_noGenerics : NoGenerics demoFacts := by
+  refine ⟨?_, ?_⟩
+  · intro g und ms tps ou h
+    match g with
+    | 0 => simp [demoFacts] at h; exact h.2.2.1
+    | 1 => simp [demoFacts] at h
+    | 2 => simp [demoFacts] at h
+    | _ + 3 => simp [demoFacts] at h
+  · intro g c h
+    match g with
+    | 0 => simp [demoFacts] at h
+    | 1 => simp [demoFacts] at h
+    | 2 => simp [demoFacts] at h
+    | _ + 3 => simp [demoFacts] at h
+
+theorem demo_wellFormed : WellFormed demoFacts false := by
+  refine ⟨?_⟩
+  intro g und ms tps ou h
+  match g with
+  | 0 =>
+    simp [demoFacts] at h
+    obtain ⟨rfl, _, _, rfl⟩ := h
+    exact ⟨.inr ⟨_, _, rfl⟩, ⟨_, _, rfl⟩⟩
+  | 1 => simp [demoFacts] at h
+  | 2 => simp [demoFacts] at h
+  | _ + 3 => simp [demoFacts] at h
+
+/-- the walk of the cyclic type succeeds, so the premises of the theorems above are met by a real run -/
+example : (walk [] demoFacts false 8 {} 0 none).isSome = true := by decide
 
 end Gengo.C01
